@@ -28,10 +28,10 @@ import sys
 import time
 
 from harness import c14cfg
+from harness import c14tlc
 from harness import common
 from harness import evidence
 from harness import findings
-from harness import tlc
 from harness.semcheck import ParseVerdictLine
 
 PROP = 'C14'
@@ -174,10 +174,8 @@ class Jobs(object):
     WriteNd(path, lines)
 
     def Go():
-      r = tlc.Run(module, cfg=cfg, workers=1, env={'C14_INPUT': path},
-                  coverage=coverage, timeout=timeout, tag='c14' + kind,
-                  heap='3g')
-      return r
+      return c14tlc.Run(module, cfg, {'C14_INPUT': path}, coverage=coverage,
+                        timeout=timeout, tag='c14' + kind)
     fut = self.pool.submit(Go)
     self.futs.append((kind, path, lines, fut))
     return fut
@@ -330,27 +328,38 @@ def Run(tier):
   rng = common.Rng('c14/programs/' + tier)
   cases = [c14run.GenProgram(rng, 'p%04d' % k) for k in range(t['programs'])]
   case_by_id = {c['id']: c for c in cases}
-  prog_lines = []
-  for ls in common.ParallelMap(c14run.RunProgramCase, cases, chunksize=1):
-    prog_lines += ls
-  runmany_lines = []
   plain_cases = [c for c in cases if not c['meta']['data']]
-  for r in common.ParallelMap(c14run.RunManyCase, plain_cases[:t['runmany']],
-                              chunksize=1):
-    runmany_lines.append({'id': r['id'],
-                          'cfg': {'n': 0, 'req': [], 'iters': []}, 'ev': [],
-                          'end': r['end'], 'res': r['res'],
-                          '_': {'origin': 'runmany',
-                                'text': case_by_id[r['id'].split('/')[0]]
-                                ['text'],
-                                'finals': case_by_id[r['id'].split('/')[0]]
-                                ['finals']}})
   stub_cases = []
   for k, text in enumerate(c14run.StubPrograms()):
     for ra in t['stub_times']:
       stub_cases.append({'id': 's%02d/t%d' % (k, ra), 'text': text,
                          'pred': 'Q', 'raise_at': ra})
-  stub_lines = common.ParallelMap(c14run.RunStubCase, stub_cases, chunksize=2)
+  # one pool: single requests, real Run/RunMany, stub runs; then the
+  # multi-predicate requests (they carry the single-request tables)
+  tasks = [{'kind': 'subset', 'case': c, 'sub': sub}
+           for c in cases for sub in c['subsets'] if len(sub) == 1]
+  tasks += [{'kind': 'runmany', 'case': c}
+            for c in plain_cases[:t['runmany']]]
+  tasks += [{'kind': 'stub', 'case': c} for c in stub_cases]
+  out1 = common.ParallelMap(c14run.RunTask, tasks, chunksize=1)
+  prog_lines = [r for tk, r in zip(tasks, out1) if tk['kind'] == 'subset']
+  stub_lines = [r for tk, r in zip(tasks, out1) if tk['kind'] == 'stub']
+  runmany_lines = []
+  for tk, r in zip(tasks, out1):
+    if tk['kind'] == 'runmany':
+      runmany_lines.append({'id': r['id'],
+                            'cfg': {'n': 0, 'req': [], 'iters': []},
+                            'ev': [], 'end': r['end'], 'res': r['res'],
+                            '_': {'origin': 'runmany',
+                                  'text': tk['case']['text'],
+                                  'finals': tk['case']['finals']}})
+  singles = {}
+  for line in prog_lines:
+    singles.setdefault(line['_']['case'], {}).update(line['_']['results'])
+  tasks2 = [{'kind': 'subset', 'case': c, 'sub': sub,
+             'singles': singles.get(c['id'], {})}
+            for c in cases for sub in c['subsets'] if len(sub) > 1]
+  prog_lines += common.ParallelMap(c14run.RunTask, tasks2, chunksize=1)
   # reproducers of the listed finding through compilation (undocumented
   # option / hand-written @Iteration): classified, never silently dropped
   special = []
